@@ -135,6 +135,7 @@ int flex_main (int argc, char *argv[])
 {
 	int     i, exit_status, child_status;
 	int	did_eof_rule = false;
+	pid_t   main_pid;
 
 	/* Set a longjmp target. Yes, I know it's a hack, but it gets worse: The
 	 * return value of setjmp, if non-zero, is the desired exit code PLUS ONE.
@@ -143,6 +144,7 @@ int flex_main (int argc, char *argv[])
 	 * specify a value of 0 to longjmp. FLEX_EXIT(n) should be used instead of
 	 * exit(n);
 	 */
+	main_pid = getpid ();
 	exit_status = setjmp (flex_main_jmp_buf);
 	if (exit_status){
 		if (stdout && !_stdout_closed && !ferror(stdout)){
@@ -154,8 +156,14 @@ int flex_main (int argc, char *argv[])
 			    || WEXITSTATUS (child_status) != 0){
 				/* report an error of a child
 				 */
-				if( exit_status <= 1 )
+				if( exit_status <= 1 ) {
 					exit_status = 2;
+					/* The child may have died silently. */
+					if (getpid () == main_pid)
+						fprintf (stderr,
+							 _("%s: an output filter process failed\n"),
+							 program_name);
+				}
 
 			}
 		}
